@@ -15,8 +15,19 @@ import (
 	"math"
 	"time"
 
+	"context"
+
+	"github.com/btcsuite/btclog/v2"
 	"github.com/lightninglabs/lightning-node-connect/gbn"
+	"github.com/lightninglabs/lightning-node-connect/hashmailrpc"
+	"github.com/lightningnetwork/lnd/aezeed"
 )
+
+var _ context.Context
+var _ btclog.Logger
+var _ hashmailrpc.HashMailClient
+
+var _ = aezeed.BitsPerWord
 
 var _ = gbn.DefaultN
 
@@ -151,9 +162,97 @@ func be32at1(b []byte) uint32 {
 
 // ---- contracts -------------------------------------------------------------
 
+// the package logger is set by init (UseLogger)
+//@ axiom log != nil
+
 //@ import "io"
 //@ import "math"
 //@ import "github.com/lightninglabs/lightning-node-connect/gbn"
+//@ import "github.com/lightningnetwork/lnd/aezeed"
+//@ import "context"
+//@ import "github.com/btcsuite/btclog/v2"
+//@ import "github.com/lightninglabs/lightning-node-connect/hashmailrpc"
+
+// ---- pairing phrase and rendezvous (C17) -------------------------------------------
+
+// The word list has 2048 entries and the reverse map is its inverse. (Facts about
+// a dependency's package-level tables; selftest/wordlist_test.go checks them
+// exhaustively on the real tables.)
+//@ axiom len(aezeed.DefaultWordList) == 2048
+//@ axiom forall(0, 2048, func(i int) bool { return has(aezeed.ReverseWordMap, aezeed.DefaultWordList[i]) && aezeed.ReverseWordMap[aezeed.DefaultWordList[i]] == i })
+
+//@ func GetSID(sid [64]byte, serverToClient bool) (r [64]byte)
+//@   props C17
+//@   ensures implies(serverToClient, r == sid)
+//@   ensures implies(!serverToClient, r[63] == sid[63]^1 && forall(0, 63, func(i int) bool { return r[i] == sid[i] }))
+
+// sidFor: r is the stream identifier for the given direction: the session
+// identifier itself for server-to-client, the identifier with its last bit
+// flipped for client-to-server.
+func sidFor(r, sid [64]byte, serverToClient bool) bool {
+	if serverToClient {
+		return r == sid
+	}
+	return r[63] == sid[63]^1 && forall(0, 63, func(i int) bool { return r[i] == sid[i] })
+}
+
+//@ func NewClientConn(ctx context.Context, sid [64]byte, serverHost string, client hashmailrpc.HashMailClient, logger btclog.Logger, onNewStatus func(status ClientStatus)) (c *ClientConn, err error)
+//@   props C17 C11
+//@   requires !isnil(ctx) && !isnil(logger)
+//@   noframe
+//@   ensures implies(err == nil, c != nil && c.connKit != nil && sidFor(c.connKit.receiveSID, sid, true) && sidFor(c.connKit.sendSID, sid, false))
+//@   ensures implies(err == nil, gbn.VerifConnUsable(c.gbnConn) && !closed(c.quit))
+
+//@ func NewServerConn(ctx context.Context, serverHost string, client hashmailrpc.HashMailClient, sid [64]byte, logger btclog.Logger, onNewStatus func(status ServerStatus)) (c *ServerConn, err error)
+//@   props C17 C11
+//@   requires !isnil(ctx) && !isnil(logger)
+//@   noframe
+//@   ensures implies(err == nil, c != nil && c.connKit != nil && sidFor(c.connKit.receiveSID, sid, false) && sidFor(c.connKit.sendSID, sid, true))
+//@   ensures implies(err == nil, gbn.VerifConnUsable(c.gbnConn) && !closed(c.quit))
+
+// lemmaSIDDirections: the client's send stream is the server's receive stream
+// and vice versa, and the two directions never share a stream.
+func lemmaSIDDirections(sid [64]byte) (cRecv, cSend, sRecv, sSend [64]byte) {
+	cRecv, cSend = GetSID(sid, true), GetSID(sid, false) // as in NewClientConn
+	sRecv, sSend = GetSID(sid, false), GetSID(sid, true) // as in NewServerConn
+	return
+}
+
+//@ func lemmaSIDDirections(sid [64]byte) (cRecv, cSend, sRecv, sSend [64]byte)
+//@   props C17
+//@   noframe
+//@   ensures cSend == sRecv && cRecv == sSend && cSend != cRecv && sSend != sRecv
+
+// lemmaMnemonicRoundTrip: the phrase encodes the first 110 bits of the entropy:
+// decoding the phrase gives the entropy back with its last two bits cleared.
+func lemmaMnemonicRoundTrip(e [NumPassphraseEntropyBytes]byte) (e2 [NumPassphraseEntropyBytes]byte, err error) {
+	words, err := PassphraseEntropyToMnemonic(e)
+	if err != nil {
+		return e2, err
+	}
+	return PassphraseMnemonicToEntropy(words), nil
+}
+
+//@ func lemmaMnemonicRoundTrip(e [NumPassphraseEntropyBytes]byte) (e2 [NumPassphraseEntropyBytes]byte, err error)
+//@   props C17
+//@   noframe
+//@   ensures err == nil
+//@   ensures forall(0, 13, func(i int) bool { return e2[i] == e[i] }) && e2[13] == e[13]&0xFC
+
+// lemmaPhraseRoundTrip: a phrase of words from the list encodes back to itself.
+func lemmaPhraseRoundTrip(idx [NumPassphraseWords]int) (in, out [NumPassphraseWords]string, err error) {
+	for i := range in {
+		in[i] = aezeed.DefaultWordList[idx[i]]
+	}
+	out, err = PassphraseEntropyToMnemonic(PassphraseMnemonicToEntropy(in))
+	return
+}
+
+//@ func lemmaPhraseRoundTrip(idx [NumPassphraseWords]int) (in, out [NumPassphraseWords]string, err error)
+//@   props C17
+//@   noframe
+//@   requires forall(0, NumPassphraseWords, func(i int) bool { return 0 <= idx[i] && idx[i] < 2048 })
+//@   ensures err == nil && forall(0, NumPassphraseWords, func(i int) bool { return out[i] == in[i] })
 
 // ---- cipher state (C08) ---------------------------------------------------------
 
